@@ -62,7 +62,7 @@ fn peer_loop(mut s: UnixStream, delay: i32, acks: Arc<AtomicBool>, overlaps: Arc
             }
         };
         if let Some(b) = reply_body {
-            if delay > 0 && readable_within(&s, delay) {
+            if readable_within(&s, delay) {
                 overlaps.fetch_add(1, Ordering::SeqCst);
             }
             let mut out = vec![];
@@ -91,6 +91,7 @@ pub fn run(args: &[Val]) -> Val {
         })
         .collect();
     let delay = args.get(2).and_then(|v| v.as_u64()).unwrap_or(15) as i32;
+    let reps = args.get(3).and_then(|v| v.as_u64()).unwrap_or(1).max(1);
     let (a, b) = match UnixStream::pair() {
         Ok(p) => p,
         Err(_) => return Val::err("socketpair"),
@@ -125,7 +126,9 @@ pub fn run(args: &[Val]) -> Val {
                 let (mut f, bar, tx) = (fe.clone(), barrier.clone(), tx.clone());
                 std::thread::spawn(move || {
                     bar.wait();
-                    let r = match op.as_str() {
+                    let mut r = "ok".to_string();
+                    for _ in 0..reps {
+                    let r1 = match op.as_str() {
                         "get_vring_base" => match f.get_vring_base(arg as usize) {
                             Ok(v) if v as u64 == 1000 + arg => "ok".to_string(),
                             Ok(v) => format!("wrong:{}", v),
@@ -144,6 +147,11 @@ pub fn run(args: &[Val]) -> Val {
                         },
                         _ => "unknown".to_string(),
                     };
+                    if r1 != "ok" {
+                        r = r1;
+                        break;
+                    }
+                    }
                     let _ = tx.send((i, r));
                 });
             }
@@ -159,11 +167,20 @@ pub fn run(args: &[Val]) -> Val {
                     let mut u = [0u8; 16];
                     u[0] = 1 + arg as u8;
                     let msg = VhostUserSharedMsg { uuid: uuid::Uuid::from_bytes(u) };
-                    let r = match p.shared_object_add(&msg) {
-                        Ok(0) => "ok".to_string(),
-                        Ok(v) => format!("wrong:{}", v),
-                        Err(_) => "err".to_string(),
-                    };
+                    let mut r = "ok".to_string();
+                    for _ in 0..reps {
+                        match p.shared_object_add(&msg) {
+                            Ok(0) => {}
+                            Ok(v) => {
+                                r = format!("wrong:{}", v);
+                                break;
+                            }
+                            Err(_) => {
+                                r = "err".to_string();
+                                break;
+                            }
+                        }
+                    }
                     let _ = tx.send((i, r));
                 });
             }
@@ -174,11 +191,20 @@ pub fn run(args: &[Val]) -> Val {
                 let (p, bar, tx) = (g.clone(), barrier.clone(), tx.clone());
                 std::thread::spawn(move || {
                     bar.wait();
-                    let r = match p.get_protocol_features() {
-                        Ok(v) if v.value == 0x55 => "ok".to_string(),
-                        Ok(v) => format!("wrong:{}", v.value),
-                        Err(_) => "err".to_string(),
-                    };
+                    let mut r = "ok".to_string();
+                    for _ in 0..reps {
+                        match p.get_protocol_features() {
+                            Ok(v) if v.value == 0x55 => {}
+                            Ok(v) => {
+                                r = format!("wrong:{}", v.value);
+                                break;
+                            }
+                            Err(_) => {
+                                r = "err".to_string();
+                                break;
+                            }
+                        }
+                    }
                     let _ = tx.send((i, r));
                 });
             }
@@ -188,7 +214,7 @@ pub fn run(args: &[Val]) -> Val {
     drop(tx);
     let mut results = vec!["not-completed".to_string(); n];
     let mut completed = 0u64;
-    let deadline = std::time::Instant::now() + Duration::from_millis(3000);
+    let deadline = std::time::Instant::now() + Duration::from_millis(8000);
     while completed < n as u64 {
         let left = deadline.saturating_duration_since(std::time::Instant::now());
         match rx.recv_timeout(left) {
